@@ -13,6 +13,7 @@ import OrasModel.Driver.Cd
 import OrasModel.Driver.Au
 import OrasModel.Driver.Sc
 import OrasModel.Driver.Rf
+import OrasModel.Driver.Rl
 import OrasModel.Driver.Pg
 import OrasModel.Driver.Rm
 import OrasModel.Driver.S
@@ -28,6 +29,7 @@ structure DState where
   au : Au.St := {}
   rm : Rm.St := {}
   s : S.St := {}
+  rl : Rl.St := {}
 
 def answer (r : Option (α × String × String)) (st : DState) (upd : α → DState) : DState × String :=
   match r with
@@ -67,6 +69,7 @@ def handle (st : DState) (line : String) : DState × String :=
   | "ref" :: rest => (match R.step rest with
       | some (m, s) => (st, s!"m={m} s={s}")
       | none => (st, "bad-op"))
+  | "rl" :: rest => answer (Rl.step st.rl rest) st (fun c => { st with rl := c })
   | "cp" :: rest => answer (Cp.step st.cp rest) st (fun c => { st with cp := c })
   | "fr" :: rest => answer (Fr.step st.fr rest) st (fun c => { st with fr := c })
   | "o" :: rest =>
